@@ -156,6 +156,8 @@ class MasterSim(object):
         self.blacklist = []
         self.parent_of = {}
         self.announced = {}        # server -> capacity last announced by an admin event
+        self.freeze_requested = set()   # frozen by the admin, event maybe pending
+        self.frozen_by_admin = set()    # ... and processed (quiescence since)
 
         self._install_observers()
         self._build_world()
@@ -655,6 +657,8 @@ class MasterSim(object):
             self.drain()
         self.dirty = False
         self.dirty_kinds = set()
+        # every event has been processed: what the admin froze is frozen
+        self.frozen_by_admin |= self.freeze_requested
         for check in self.quiescent_checks:
             check(self)
 
@@ -884,6 +888,11 @@ class MasterSim(object):
                 if placed else None
         self.tick()
         masterapi.update_server_state(self.admin, name, state, apps)
+        if state == 'frozen' and name in self.nodes:
+            self.freeze_requested.add(name)
+        else:
+            self.freeze_requested.discard(name)
+            self.frozen_by_admin.discard(name)
 
     def op_app(self, proid, aff_i, demand, prio, lease, retention, group,
                traits, once, count, style):
@@ -1198,6 +1207,13 @@ class MasterSim(object):
         if op[0] not in self.MASTER_OPS:
             self.dirty = True
             self.dirty_kinds.add(op[0])
+            if op[0] not in ('state', 'app', 'rm', 'rmlast', 'finish', 'prio',
+                             'running', 'bl'):
+                # anything that may touch a server (presence, record,
+                # topology, restart of the node) ends what the harness knows
+                # about admin-requested freezes
+                self.freeze_requested.clear()
+                self.frozen_by_admin.clear()
         return getattr(self, 'op_' + op[0])(*op[1:])
 
     # ------------------------------------------------------- crash prefixes
